@@ -171,6 +171,29 @@ Proof.
   destruct (list_eq_dec N.eq_dec l star); lia.
 Qed.
 
+Lemma lower_42 c : lower c = 42 -> c = 42.
+Proof. unfold lower. destruct ((65 <=? c) && (c <=? 90)) eqn:E; lia. Qed.
+
+Lemma is_wildcard_lowers l : is_wildcard (lowers l) = is_wildcard l.
+Proof.
+  destruct (is_wildcard l) eqn:E.
+  - apply is_wildcard_spec in E. subst. reflexivity.
+  - destruct (is_wildcard (lowers l)) eqn:E2; [|reflexivity].
+    apply is_wildcard_spec in E2. destruct l as [|c [|d t]]; try discriminate.
+    unfold lowers, star in E2. cbn [map] in E2. injection E2 as E2. apply lower_42 in E2. subst.
+    discriminate E.
+Qed.
+
+Lemma rrsig_label_count_canon a b : canon a = canon b -> rrsig_label_count a = rrsig_label_count b.
+Proof.
+  intros H. pose proof (f_equal (@length _) H) as Hl. unfold canon in *. rewrite !map_length in Hl.
+  destruct a as [|la ta]; destruct b as [|lb tb]; try discriminate; [reflexivity|].
+  cbn [map] in H. injection H as Hh Ht. cbn [length] in Hl. injection Hl as Hl.
+  cbn [rrsig_label_count]. rewrite <- (is_wildcard_lowers la), <- (is_wildcard_lowers lb), Hh.
+  assert (Hl' : length ta = length tb) by exact Hl. clear Hl.
+  destruct (is_wildcard (lowers lb)); f_equal; lia.
+Qed.
+
 Lemma labels_field_is_rfc owner : valid_abs owner ->
   rrsig_label_count owner = rfc_labels owner /\ rfc_labels owner <= N.of_nat (length owner).
 Proof. intros H. split; [exact (rrsig_label_count_is_rfc owner H)|exact (rfc_labels_le owner)]. Qed.
@@ -198,7 +221,7 @@ Proof. apply sort_by_forall. Qed.
 
 Lemma rrset_new_ok l l' : rrset_new l = Ok l' -> l' = l /\ l <> [].
 Proof.
-  unfold rrset_new. destruct l as [|f t]; [discriminate|].
+  unfold rrset_new, rrset_ttl_exempt_rtype, rrset_new_panics_on_mixed_ttl. destruct l as [|f t]; [discriminate|].
   destruct (r_type f =? 46); [intros H; injection H as <-; split; [reflexivity|discriminate]|].
   destruct (forallb _ _); [|discriminate]. intros H; injection H as <-. split; [reflexivity|discriminate].
 Qed.
@@ -223,7 +246,7 @@ Proof.
   destruct (sort_rr rrset) as [|first rest] eqn:Es; [contradiction|].
   apply sign_sorted_ok in Hs as (Hsig & Hscr & Ht & Hp).
   pose proof (Forall_inv Hus) as (Ho & Hty & Hc & Httl).
-  rewrite Ho, Hty, Httl in Hsig. rewrite Hty in Ht.
+  rewrite (rrsig_label_count_canon _ _ Ho), Hty, Httl in Hsig. rewrite Hty in Ht.
   repeat split; try assumption.
   - rewrite Hscr. f_equal. apply flat_map_via_key.
     eapply Forall_impl; [|exact Hus]. intros r (Hro & Hrt & Hrc & Hrl).
@@ -311,7 +334,7 @@ Proof.
   { exfalso. apply Hne. apply Permutation_nil. rewrite <- Es. apply (sort_by_perm _ r_rdata rrset). }
   pose proof (Forall_inv Hus) as (Ho & Hty & Hc & Httl).
   assert (Hnew : rrset_new (first :: rest) = Ok (first :: rest)).
-  { unfold rrset_new. destruct (r_type first =? 46); [reflexivity|].
+  { unfold rrset_new, rrset_ttl_exempt_rtype. destruct (r_type first =? 46); [reflexivity|].
     replace (forallb (fun r => r_ttl r =? r_ttl first) (first :: rest)) with true; [reflexivity|].
     symmetry. apply forallb_forall. intros r Hr. unfold uniform in Hus. rewrite Forall_forall in Hus.
     destruct (Hus r Hr) as (_ & _ & _ & Hrl). apply N.eqb_eq. congruence. }
@@ -321,8 +344,8 @@ Proof.
   pose proof (cmp_no_panic exp inc He Hi) as Hnp.
   pose proof (cmp_closed_form exp inc He Hi) as Hcf.
   destruct (serial_partial_cmp exp inc) as [cc| | |] eqn:Ec; cbn [bind]; try contradiction.
-  - rewrite proto_rrsig_closed. cbn [s_labels]. rewrite Ho, (rrsig_label_count_is_rfc _ Hv).
-    pose proof (rfc_labels_le o) as Hle.
+  - rewrite proto_rrsig_closed. cbn [s_labels]. rewrite (rrsig_label_count_canon _ _ Ho), (rrsig_label_count_is_rfc _ Hv).
+    pose proof (rfc_labels_le o) as Hle. rewrite (canon_length _ _ Ho).
     destruct (N.ltb_spec (rfc_labels o) (N.of_nat (length o) + 1)) as [_|Hge]; [|lia].
     destruct cc as [[| |]|]; repeat split; try assumption; try discriminate; reflexivity.
   - rewrite Hcf in Ec. discriminate.
